@@ -4,7 +4,7 @@ from ..rules import kernels, drivers, canon
 META = {
     "title": "MPS truncation and canonical form honour their contract",
     "technique": "static analysis: call-site argument provenance of every split/truncate/zip site, typestate of "
-                 "the orthogonality centre around factor writes",
+                 "the orthogonality centre around factor writes; QR gauge-move idiom table; idiom classification of the truncation cut-off (running sum vs per-value)",
     "design_ref": "DESIGN.md §5 C10",
     "explanation": "TRUNCARGS: at each of the 6 sites producing MPS factors (evolve_pair, minimize_energy_pair, "
                    "truncate_impl → split_matrix; MPS.truncate, zip_right → truncate_impl; MPO.apply_to → zip_right) "
